@@ -20,12 +20,12 @@ import (
 // engines are therefore built from instrumented copies (through the same
 // overlay as the runtime files, made from the current tree at every build, /repo
 // itself is not touched): a yield before every statement that takes a lock and
-// after every statement that releases one - the points at which the calling
+// after every statement (also a deferred one) that releases one - the points at which the calling
 // goroutine holds one lock fewer than in between, so parking there cannot wedge
 // anybody waiting for that lock. Insertions stay on the line of the statement
 // (line numbers in stack traces are those of /repo).
 
-var autoYieldPackages = []string{"pkg/state", "pkg/prompting"}
+var autoYieldPackages = []string{"pkg/state", "pkg/prompting", "pkg/synchronization"}
 
 // In these packages the interleaving points are system calls on a shared file
 // (the daemon lock): a yield before every statement that calls unix.Fcntl*.
@@ -123,6 +123,17 @@ func instrument(name string, src []byte, pkg string, syscalls bool) (string, int
 		// (text is inserted before or after them on the same line).
 		visit := func(list []ast.Stmt) {
 			for _, st := range list {
+				// "defer x.Unlock()" becomes "defer func() { x.Unlock(); yield }()".
+				if ds, ok := st.(*ast.DeferStmt); ok && !syscalls && len(ds.Call.Args) == 0 {
+					if sel, ok := ds.Call.Fun.(*ast.SelectorExpr); ok && (sel.Sel.Name == "Unlock" || sel.Sel.Name == "RUnlock") {
+						lock := string(src[fset.Position(sel.X.Pos()).Offset:fset.Position(sel.X.End()).Offset])
+						counter[fname]++
+						site := fmt.Sprintf("auto:%s.%s:after-unlock(%s)#%d", pkg, fname, lock, counter[fname])
+						ins = append(ins, insertion{fset.Position(ds.Call.Pos()).Offset, "func() { "})
+						ins = append(ins, insertion{fset.Position(ds.End()).Offset, fmt.Sprintf("; verifauto.Yield(%q) }()", site)})
+					}
+					continue
+				}
 				// The simple statement that may hold the call: the statement
 				// itself, or the initialiser of an if statement.
 				simple := st
@@ -158,14 +169,16 @@ func instrument(name string, src []byte, pkg string, syscalls bool) (string, int
 				if !isExpr || len(call.Args) != 0 {
 					continue
 				}
+				// The site names the lock as the source does ("c.lifecycleLock").
+				lock := string(src[fset.Position(sel.X.Pos()).Offset:fset.Position(sel.X.End()).Offset])
 				switch sel.Sel.Name {
 				case "Lock", "RLock":
 					counter[fname]++
-					site := fmt.Sprintf("auto:%s.%s:before-lock#%d", pkg, fname, counter[fname])
+					site := fmt.Sprintf("auto:%s.%s:before-lock(%s)#%d", pkg, fname, lock, counter[fname])
 					ins = append(ins, insertion{fset.Position(st.Pos()).Offset, fmt.Sprintf("verifauto.Yield(%q); ", site)})
 				case "Unlock", "RUnlock":
 					counter[fname]++
-					site := fmt.Sprintf("auto:%s.%s:after-unlock#%d", pkg, fname, counter[fname])
+					site := fmt.Sprintf("auto:%s.%s:after-unlock(%s)#%d", pkg, fname, lock, counter[fname])
 					ins = append(ins, insertion{fset.Position(st.End()).Offset, fmt.Sprintf("; verifauto.Yield(%q)", site)})
 				}
 			}
